@@ -9,6 +9,7 @@ CONSTANTS
   TopOps <- Ops_Q
   BodyOps <- Ops_QBody
   MethOps <- Ops_QBody
+  LogLevels = {}
   RunTimes = {0, 1, 3}
 INVARIANT NoViolation
 VIEW View
